@@ -19,7 +19,7 @@ Theorem C08_example_function_like :
   end.
 Proof. vm_compute. reflexivity. Qed.
 
-(** the two known deviations, on the model (known findings F-C08-...) *)
+(** the known deviation, on the model (known finding F-C08-...) *)
 Theorem C08_param_shadow_refuted :
   match run_cpp [] "m.c" [] (map (fun l => l ++ nl) ["#define x 5"; "#define F(x) x+1"; "F(3)"]) with
   | POk p => p_out p = "5+1" ++ nl
@@ -27,9 +27,18 @@ Theorem C08_param_shadow_refuted :
   end.
 Proof. vm_compute. reflexivity. Qed.
 
-Theorem C08_dash_d_chain_refuted :
+(** repaired: every replacement round computes its match set on the text at the beginning of
+    the round, so a name brought in by a replacement is expanded in a later round *)
+Theorem C08_dash_d_chain_fixed :
   match run_cpp [] "m.c" [("A", "1"); ("B", "A")] ["B" ++ nl] with
-  | POk p => p_out p = "A" ++ nl
+  | POk p => p_out p = "1" ++ nl
+  | PErr _ => False
+  end.
+Proof. vm_compute. reflexivity. Qed.
+
+Theorem C08_object_names_function_macro_fixed :
+  match run_cpp [] "m.c" [] (map (fun l => l ++ nl) ["#define F(b) +1"; "#define G F"; "G(2)"]) with
+  | POk p => p_out p = "+1" ++ nl
   | PErr _ => False
   end.
 Proof. vm_compute. reflexivity. Qed.
@@ -62,6 +71,35 @@ Theorem C08_replace_all_independent : forall (ms : list (string * string)) s,
   String.concat "" (map (fun t => match find (fun nv => String.eqb (fst nv) t) ms with
                                   | Some nv => snd nv | None => t end) (tokens s)).
 Proof. exact replace_all_independent. Qed.
+
+(** chains: an acyclic set of object-like macros ([rank] strictly decreases from a macro to the
+    macro names its value mentions) of depth below the 64-round cap is expanded completely, in
+    whatever order the macros are listed: every token becomes its full recursive expansion ... *)
+Theorem C08_replace_all_chain : forall (ms : list (string * string)) (rank : string -> nat) s,
+  NoDup (map fst ms) -> (forall n v, In (n, v) ms -> wordy n) ->
+  (forall n v t, In (n, v) ms -> In t (tokens v) -> In t (map fst ms) -> rank t < rank n) ->
+  (forall n, In n (map fst ms) -> rank n < 64) ->
+  replace_all (map (fun nv => (fst nv, MObj (snd nv))) ms) s = tsubst (expand_tok 64 ms) s.
+Proof. exact replace_all_chain. Qed.
+
+(** ... where the expansion of a macro name is its value with every token expanded, any other
+    token is kept ... *)
+Theorem C08_expand_tok_equations : forall (ms : list (string * string)) (rank : string -> nat),
+  NoDup (map fst ms) -> (forall n v, In (n, v) ms -> wordy n) ->
+  (forall n v t, In (n, v) ms -> In t (tokens v) -> In t (map fst ms) -> rank t < rank n) ->
+  (forall n, In n (map fst ms) -> rank n < 64) ->
+  (forall n v, In (n, v) ms -> expand_tok 64 ms n = tsubst (expand_tok 64 ms) v) /\
+  (forall t, ~ In t (map fst ms) -> expand_tok 64 ms t = t).
+Proof. exact expand_tok_equations. Qed.
+
+(** ... and no macro name is left in the result *)
+Theorem C08_replace_all_chain_closed : forall (ms : list (string * string)) (rank : string -> nat) s t,
+  NoDup (map fst ms) -> (forall n v, In (n, v) ms -> wordy n) ->
+  (forall n v t, In (n, v) ms -> In t (tokens v) -> In t (map fst ms) -> rank t < rank n) ->
+  (forall n, In n (map fst ms) -> rank n < 64) ->
+  In t (tokens (replace_all (map (fun nv => (fst nv, MObj (snd nv))) ms) s)) ->
+  ~ In t (map fst ms).
+Proof. exact replace_all_chain_closed. Qed.
 
 (** arguments are captured by position, nested parentheses (four levels) included *)
 Theorem C08_capture_args_nested : forall args rest, Forall arg_ok args -> args <> [] ->
